@@ -3,7 +3,10 @@ import random
 from .. import common, corpus, suite_translate as st
 
 THEOREMS = ["Lou.C09.fwdRun_enc", "Lou.C09.finish_encodings", "Lou.C09.typeformCell_spec", "Lou.C09.back_decode",
-            "Lou.C09.back_unicode"]
+            "Lou.C09.back_unicode", "Lou.C09.translate_enc", "Lou.C09.translateC_enc", "Lou.C09B.translate_enc",
+            "Lou.C09B.translateC_enc", "Lou.C09.engineFor_modeBlind", "Lou.C09.engineForBack_modeBlind",
+            "Lou.C09.whole_call_fwd_encodings", "Lou.C09.whole_call_fwd_three", "Lou.C09.backRun_decode",
+            "Lou.C09.whole_call_back_decode"]
 
 CLAIM = dict(
     text=("Kernel-checked: for engines that ignore the two encoding bits (ModeBlind) the pass loop is identical for the "
@@ -11,10 +14,20 @@ CLAIM = dict(
           "the dotsIO output cell by cell, the ucBrl output is (cell & 0xff) | 0x2800, lengths and both position maps are "
           "equal, and typeform[k] = '8' iff cell k has dot 7 or 8 (finish_encodings, typeformCell_spec); the backward input "
           "decoder in character mode equals the dotsIO decoder on the lou_charToDots image (back_decode) and accepts U+28xx in "
-          "place of flagged dot patterns (back_unicode; false on the tree as found - F8 - repaired). Tie: the same call is "
+          "place of flagged dot patterns (back_unicode; false on the tree as found - F8 - repaired). ModeBlind is PROVED for the "
+          "four modelled main passes (F0, B0 and their extensions with context rules: translate_enc, translateC_enc in both "
+          "directions - the mode reaches only the noUndefined, noContractions and partialTrans tests) and hence for the engines "
+          "of the whole-call model (engineFor_modeBlind, engineForBack_modeBlind); so without any hypothesis about the engine: "
+          "two forward calls of the whole-call model that differ only in the encoding bits go through the same stages with the "
+          "same data and end in the same driver state (whole_call_fwd_encodings), the default / dotsIO / dotsIO|ucBrl results "
+          "are related cell by cell with equal lengths and position maps (whole_call_fwd_three), and back-translating "
+          "NUL-free characters equals back-translating (dotsIO) their display image: same stages, same result "
+          "(whole_call_back_decode). Tie: the same call is "
           "run in the three encodings on every shipped table and display table with the other mode bits; the H4 traces of "
           "the three runs must be identical (engine blindness on real runs), and the statement itself is the oracle."),
-    note="ModeBlind is proved only for Layer B engines; for the other opcodes it is what the cross-encoding trace equality checks.",
+    note=("ModeBlind is proved for the Layer B engines (tables inside the whole-call fragment; the whole-call model is compared with the "
+          "code in all encodings on composite generated tables in this check); for the other opcodes it is what the cross-encoding "
+          "trace equality checks on every shipped table."),
     technique="Lean 4 proof over the driver model + cross-encoding H4 trace equality + oracle search",
     design="DESIGN.md §7 C09")
 
@@ -196,10 +209,20 @@ def run(tier):
                             {"script": c.setup + c.ops[i:i + 2], "results": [c.out[i][:800], c.out[i + 1][:800]]})
             elif Ra["out"]:
                 v._distinct.add(("bd", c.meta["table"], tuple(Ra["out"])))
+    # whole calls on composite generated tables in every encoding: the model alone (driver + engines, about which
+    # engineFor_modeBlind / whole_call_fwd_three / whole_call_back_decode speak) computes the result
+    wc = st.composite_cases(rng, 100 if tier == "quick" else 2500, per_table=8, tag="c09wc", argmasks=[12, 28, 13, 29],
+                            modes_f=(0, 4, 4 | 64, 4 | 64 | 128, 128, 64), modes_b=(4, 4 | 128, 4 | 256))
+    wcalls = st.run_and_trace(exe, wc)
+    wdist = {}
+    whole_bad = st.compare_whole(wcalls, wdist)
+    v.obligation("correspondence: the model alone (driver + main-pass + stage models) computes the whole result of every call on "
+                 "composite generated tables in the default, dotsIO and dotsIO|ucBrl encodings", not whole_bad, "\n".join(whole_bad[:3]))
+    v.cov["evaluations"] += wdist.get("whole_calls_compared", 0)
     for c in cases2 + bcases + b2:
         if c.fault:
             v.notes.append("fault during C09 run (memory faults are decided by C01/C02): %s %s" % (c.fault["kind"], c.fault["frame"]))
-    v.cov["distribution"] = {"forward_triples": nfwd, "backward_pairs": nb, "display_tables": len(dis)}
+    v.cov["distribution"] = {"forward_triples": nfwd, "backward_pairs": nb, "display_tables": len(dis), "whole_calls": wdist}
     v.cov["traces_validated_against_impl"] = nfwd * 3
     v.cov["rule"] = ("each forward call is run in the three encodings {default, dotsIO, dotsIO|ucBrl} with identical other arguments "
                      "(incl. noContractions/noUndefined, separate .dis display tables) on %d tables; each backward call as characters vs "
